@@ -302,6 +302,13 @@ inline void platform_asserts() {
     }
 }
 
+#ifdef VH_COVERAGE
+// coverage build (tools/coverage.py): no sanitizer runtime is linked; the interface functions the harnesses call are stubbed
+extern "C" void __gcov_dump(void);
+extern "C" __attribute__((weak)) int __lsan_do_recoverable_leak_check() { return 0; }
+extern "C" __attribute__((weak)) int __sanitizer_get_ownership(const volatile void *) { return 1; }
+extern "C" __attribute__((weak)) size_t __sanitizer_get_allocated_size(const volatile void *) { return (size_t)-1; }
+#endif
 inline int run_main(int argc, char **argv, GenFn gen, Emitter::ExecFn exec) {
     platform_asserts();
     Options opt;
@@ -335,6 +342,9 @@ inline int run_main(int argc, char **argv, GenFn gen, Emitter::ExecFn exec) {
             sh->alloc_faults_fired = alloc_ctl().fired;
             sh->done = 1;
             fflush(stdout);
+#ifdef VH_COVERAGE
+            __gcov_dump();   // tools/coverage.py: line coverage of /repo's headers under this family's generators
+#endif
             _exit(0);   // skip static destructors / leak check of harness-owned state
         }
         int status = 0; long last = -1; double last_change = now_s(); bool hung = false;
